@@ -1,10 +1,10 @@
 From Coq Require Extraction.
 From Coq Require Import ExtrOcamlBasic.
 From H3V Require Import Base.Bytes Spec.PrefixInt Spec.RFC7541Huffman Spec.HuffmanKnown
-  Model.PrefixInt Model.Huffman Model.PrefixString.
+  Model.PrefixInt Model.Huffman Model.PrefixString Model.ChunkedBuf Model.ChunkedQpack.
 Extraction Language OCaml.
 Extraction "C15_model.ml"
   N.add N.mul N.div_eucl N.ltb N.leb N.eqb N.pow N.modulo N.div N.sub len
-  pi_decode pi_encode hpack_decode hpack_encode ps_decode ps_encode
+  pi_decode pi_encode hpack_decode hpack_encode ps_decode ps_encode pi_decode_buf ps_decode_buf
   rfc_pi_decode rfc_pi_encode cont_run rfc_huff_decode rfc_huff_encode
   long_ones_b long_ones_result.
